@@ -4,6 +4,7 @@
   the files of the current tree is `GenProps/C14.lean`, re-checked against regenerated data.)
 -/
 import Blackbird.Lexer
+import Blackbird.Lemmas.Longest
 
 namespace Blackbird
 
@@ -107,5 +108,17 @@ theorem C14_any_rule_last : lexRules.getLast? = some (.ANY, Re.nset [], false) :
 /-- the model has exactly the 61 token kinds of the grammar (plus the end-of-input marker) -/
 theorem C14_sixty_one_token_kinds : TokKind.all.length = 61 ∧ lexRules.length = 61 ∧
     lexRules.map (·.1) = TokKind.all := by decide
+
+
+/-- **Longest match, in terms of the rule's language.** What a rule contributes at a position is the
+length of the longest prefix that lies in the language of its regular expression (`reMatches`, the
+same notion of language as in the theorems about the shipped automaton, `GenProps/C14ATN.lean`);
+nothing longer is in the language, and `none` means no prefix at all is. -/
+theorem C14_longest_is_longest_in_language (r : Re) (s : List Char) :
+    (∀ n, Re.longest r s = some n →
+      ATN.reMatches r (ATN.codes (s.take n)) = true ∧
+      ∀ k, n < k → k ≤ s.length → ATN.reMatches r (ATN.codes (s.take k)) = false) ∧
+    (Re.longest r s = none → ∀ k, k ≤ s.length → ATN.reMatches r (ATN.codes (s.take k)) = false) :=
+  ATN.longest_spec r s
 
 end Blackbird
